@@ -14,6 +14,7 @@ from . import core_getters as gt
 from . import algos_weigh as wg
 from . import core_tree as tr
 from . import algos_risk as rk
+from . import algos_close as cl
 
 UPD = [("date", "date"), ("data", "optdata"), ("inow", "optint")]
 
@@ -76,6 +77,8 @@ def build():
         reg(c, v)
     for c, v in rk.contracts():
         reg(c, v)
+    for c, v in cl.contracts():
+        reg(c, v)
     for c, v in sel.contracts():
         reg(c, v)
         if v is None:
@@ -104,6 +107,7 @@ def build():
     loops.update(wg.LOOPS)
     loops.update(tr.LOOPS)
     loops.update(rk.LOOPS)
+    loops.update(cl.LOOPS)
     # state merging at if-joins keeps StrategyBase.update at tens of paths; for the non-linear sizing
     # search of allocate separate paths are much easier for the solver
     options = {"bt.core.SecurityBase.allocate": dict(merge=False)}
